@@ -659,3 +659,26 @@ Proof.
     + intros Hk. specialize (MT Hk). destruct (Va.va_read false None sx) as [[va sM]|eM]; [destruct MT as (MT & _); unfold SBDF_OK in MT; lia|exact MT].
     + right. split; [exact Hneg|]. split; [reflexivity|]. exists j. reflexivity.
 Qed.
+
+(* ================================================================== what was read can be released: once, completely
+   (the call starts from the frame a caller gives it: the out-cell holds null, as every caller in the library has it) *)
+Theorem obj_read_arr_then_destroy rf rp fo po v k sx h m : Forall byte sx ->
+  exists f0, forall f, (f0 <= f)%nat -> exists st fin,
+    execE prog_env f (fbody prog_sbdf_obj_read_arr) (ora (VPtr rf fo) v (VPtr rp po) VUndef VUndef VUndef VNull (VInt 0) k sx h m []) = OReturn (VInt st) fin /\
+    (st = SBDF_OK ->
+       lookup "*array" (vars fin) = Some (VCell (List.length h) 0) /\
+       exists k' s' h' nb f1, lookup fail_var (vars fin) = Some (VInt k') /\ lookup strm_var (vars fin) = Some (VBytes s') /\ lookup cells_var (vars fin) = Some (VHeap h') /\
+         (1 <= nb)%nat /\ List.length h' = (List.length h + nb)%nat /\
+         forall g, (f1 <= g)%nat -> exists fin2,
+           callC prog_env g prog_sbdf_obj_destroy [VCell (List.length h) 0] (inb fin) k' s' h' = ONormal fin2 /\
+           inb fin2 = inb fin /\ lookup cells_var (vars fin2) = Some (VHeap (h ++ nones nb))).
+Proof.
+  intros Hs.
+  destruct (obj_read_arr_any rf rp fo po v (VInt 0) k sx h m [] Hs) as (st & cn & e & r & so' & k' & sx' & h' & m' & B & Pf & MT & Out).
+  destruct (bsE_sound _ _ _ _ B) as (f0 & F). exists f0. intros f Hf. exists st. eexists. split; [apply F; exact Hf|].
+  intros E. destruct Out as [(_ & -> & _ & newb & -> & Hnb & D)|(Hn & _)]; [|unfold SBDF_OK in E; lia].
+  split; [reflexivity|].
+  destruct (obj_destroy_source k' sx' m' (h ++ newb) (List.length h) (h ++ nones (List.length newb)) (D h eq_refl)) as (f1 & F1).
+  exists k', sx', (h ++ newb), (List.length newb), f1. split; [reflexivity|]. split; [reflexivity|]. split; [reflexivity|]. split; [exact Hnb|]. split; [apply app_length|].
+  intros g Hg. destruct (F1 g Hg) as (fin2 & C2 & I2 & H2). exists fin2. split; [exact C2|]. split; [exact I2|exact H2].
+Qed.
